@@ -21,7 +21,8 @@ Variable P : prims.
 Record wf_account (a : account) : Prop := {
   wf_plain : a_encrypted a = false;
   wf_seed_utf8 : utf8_ok P (a_seed a) = true;                     (* the seed is a str *)
-  wf_seed_words : nonempty (a_seed a) = true -> seed_ok P (a_seed a) = true;
+  wf_seed_pub : nonempty (a_seed a) = true ->                      (* the seed regenerates the account's public key *)
+                bytes_eqb (addr_of_seed P (a_seed a)) (addr_of_pub P (a_pub a)) = true;
   wf_priv : forall x, a_priv a = Some x -> xparse P x = XOk x /\ utf8_ok P x = true /\ nonempty x = true;
   wf_pks : a_priv a = None -> a_pks a = [];                       (* no key object: no key string either *)
   wf_ivs : iv_ok (a_iv_seed a);
@@ -75,7 +76,9 @@ Lemma account_roundtrip pw rnd a : wf_account a -> Forall len16 rnd ->
     /\ iv_ok ivs /\ iv_ok ivp
     /\ a_encrypted (fst (account_encrypt P pw rnd a)) = true
     /\ a_priv (fst (account_encrypt P pw rnd a)) = None
-    /\ Forall len16 (snd (account_encrypt P pw rnd a)).
+    /\ Forall len16 (snd (account_encrypt P pw rnd a))
+    /\ ivs = a_iv_seed (fst (account_encrypt P pw rnd a))
+    /\ ivp = a_iv_priv (fst (account_encrypt P pw rnd a)).
 Proof.
   intros [Hpl Hsu Hsw Hpr Hpk Hivs Hivp] Hr.
   unfold account_encrypt.
@@ -116,6 +119,24 @@ Proof.
       rewrite Hs. repeat split; auto.
 Qed.
 
+(* ... and Account.encrypt(password) on the decrypted account (the init vectors remembered by decrypt are reused, no
+   randomness is drawn) gives back the very same encrypted account *)
+Lemma account_relock pw rnd a : wf_account a -> Forall len16 rnd ->
+  let b := fst (account_encrypt P pw rnd a) in
+  fst (account_encrypt P pw [] (set_secrets a (a_seed a) [] (a_priv a) false (a_iv_seed b) (a_iv_priv b))) = b.
+Proof.
+  intros [Hpl Hsu Hsw Hpr Hpk Hivs Hivp] Hr. cbv zeta.
+  unfold account_encrypt.
+  destruct (nonempty (a_seed a)) eqn:Hne.
+  - destruct (get_iv (a_iv_seed a) rnd) as [iv1 rnd1].
+    destruct (a_priv a) as [x|] eqn:Hx.
+    + destruct (get_iv (a_iv_priv a) rnd1) as [iv2 rnd2]. cbn. rewrite Hne. cbn. reflexivity.
+    + cbn. rewrite Hne. cbn. rewrite (Hpk eq_refl). reflexivity.
+  - destruct (a_priv a) as [x|] eqn:Hx.
+    + destruct (get_iv (a_iv_priv a) rnd) as [iv2 rnd2]. cbn. rewrite Hne. cbn. reflexivity.
+    + cbn. rewrite Hne. cbn. rewrite (Hpk eq_refl). reflexivity.
+Qed.
+
 (* ---------------- lock / unlock of a whole wallet ---------------- *)
 Definition restored (a a' : account) : Prop :=
   exists ivs ivp, a' = set_secrets a (a_seed a) [] (a_priv a) false ivs ivp /\ iv_ok ivs /\ iv_ok ivp.
@@ -132,7 +153,7 @@ Proof.
   - exists []. cbn. repeat split; constructor.
   - inversion Hwf as [|? ? Ha Hl]; subst.
     cbn [lock_accounts]. rewrite (wf_plain _ Ha).
-    destruct (account_roundtrip pw rnd a Ha Hr) as (ivs & ivp & Hd & Hi1 & Hi2 & He & Hp & Hr').
+    destruct (account_roundtrip pw rnd a Ha Hr) as (ivs & ivp & Hd & Hi1 & Hi2 & He & Hp & Hr' & _ & _).
     destruct (account_encrypt P pw rnd a) as [a1 rnd1] eqn:Hae. cbn [fst snd] in *.
     destruct (IH rnd1 Hl Hr') as (l' & Hu & Hf & Hall).
     destruct (lock_accounts P pw rnd1 l) as [r' rnd'] eqn:Hla. cbn [fst] in *.
@@ -217,7 +238,8 @@ Proof.
     destruct (unlock_accounts P pw rest); reflexivity.
 Qed.
 
-Theorem failed_unlock_unchanged : forall w pw pre a post,
+(* refusal (False or an escaping exception) by the FIRST encrypted account: nothing is assumed about the accounts *)
+Theorem failed_unlock_unchanged_first : forall w pw pre a post,
   w_accounts w = pre ++ a :: post ->
   Forall (fun x => a_encrypted x = false) pre -> a_encrypted a = true ->
   fst (account_decrypt P pw a) <> DTrue ->
@@ -241,31 +263,142 @@ Proof.
     rewrite !map_app. cbn. rewrite Hs. reflexivity.
 Qed.
 
-(* what happens in general: accounts before the refusing one stay decrypted *)
-Theorem failed_unlock_prefix : forall pw pre a post pre',
-  unlock_accounts P pw pre = (UTrue, pre') -> a_encrypted a = true ->
+(* An account that this password opens was sealed with this password by Account.encrypt (what a key decrypts that
+   did not encrypt is not assumed, so such an account must be excluded: it could not be restored bit for bit). *)
+Definition sealed_if_opened (pw : bytes) (a : account) : Prop :=
+  a_encrypted a = true -> fst (account_decrypt P pw a) = DTrue ->
+  exists a0 rnd, wf_account a0 /\ Forall len16 rnd /\ a = fst (account_encrypt P pw rnd a0).
+
+(* Wallet.unlock answers False, whichever account refused: every account is what it was (but for the init vectors
+   remembered by the refusing account), so the wallet is unchanged; it is still locked *)
+Lemma unlock_false_accounts pw : forall l l', Forall (sealed_if_opened pw) l ->
+  unlock_accounts P pw l = (UFalse, l') ->
+  map strip_iv l' = map strip_iv l /\ existsb a_encrypted l' = true.
+Proof.
+  induction l as [|a l IH]; intros l' Hs Hu.
+  - cbn in Hu. discriminate.
+  - inversion Hs as [|? ? Ha Hl]; subst. cbn [unlock_accounts] in Hu.
+    destruct (a_encrypted a) eqn:He.
+    + destruct (account_decrypt P pw a) as [o a'] eqn:Hd. destruct o as [| |e].
+      * destruct (unlock_accounts P pw l) as [o2 r2] eqn:Hr.
+        destruct o2; try (injection Hu as Hbad _; discriminate Hbad).
+        injection Hu as <-.
+        destruct (IH r2 Hl eq_refl) as [IH1 IH2].
+        assert (Hfst : fst (account_decrypt P pw a) = DTrue) by (rewrite Hd; reflexivity).
+        destruct (Ha He Hfst) as (a0 & rnd & Hw & Hrnd & ->).
+        destruct (account_roundtrip pw rnd a0 Hw Hrnd) as (ivs & ivp & Hd' & _ & _ & He' & _ & _ & Hi1 & Hi2).
+        rewrite Hd' in Hd. injection Hd as <-. subst ivs ivp.
+        pose proof (account_relock pw rnd a0 Hw Hrnd) as Hre. cbv zeta in Hre. rewrite Hre.
+        cbn [map existsb]. rewrite IH1, He'. split; reflexivity.
+      * injection Hu as <-.
+        destruct (account_decrypt_refused pw a DFalse a' Hd) as [H1 H2]; [discriminate|].
+        cbn [map existsb]. rewrite H1, H2, He. split; reflexivity.
+      * discriminate Hu.
+    + destruct (unlock_accounts P pw l) as [o2 r2] eqn:Hr. injection Hu as -> <-.
+      destruct (IH r2 Hl eq_refl) as [IH1 IH2].
+      cbn [map existsb]. rewrite IH1, IH2. split; [reflexivity|apply orb_true_r].
+Qed.
+
+Theorem failed_unlock_unchanged : forall w pw,
+  Forall (sealed_if_opened pw) (w_accounts w) ->
+  fst (unlock P pw w) = UFalse ->
+  is_locked (snd (unlock P pw w)) = true
+  /\ w_pw (snd (unlock P pw w)) = w_pw w
+  /\ w_name (snd (unlock P pw w)) = w_name w /\ w_prefs (snd (unlock P pw w)) = w_prefs w
+  /\ map strip_iv (w_accounts (snd (unlock P pw w))) = map strip_iv (w_accounts w).
+Proof.
+  intros w pw Hs. unfold unlock.
+  destruct (unlock_accounts P pw (w_accounts w)) as [o l'] eqn:Hu. cbn [fst snd].
+  intros ->. destruct (unlock_false_accounts pw _ _ Hs Hu) as [H1 H2].
+  unfold is_locked. cbn. auto.
+Qed.
+
+(* ---------------- the behaviour before the two repairs, kept as refuted claims ---------------- *)
+(* Wallet.unlock as it was: no re-locking *)
+Fixpoint unlock_accounts_old (pw : bytes) (l : list account) : uout * list account :=
+  match l with
+  | [] => (UTrue, [])
+  | a :: r =>
+      if a_encrypted a then
+        match account_decrypt P pw a with
+        | (DTrue, a') => let (o, r') := unlock_accounts_old pw r in (o, a' :: r')
+        | (DFalse, a') => (UFalse, a' :: r)
+        | (DExc e, a') => (UExc e, a' :: r)
+        end
+      else let (o, r') := unlock_accounts_old pw r in (o, a :: r')
+  end.
+
+Theorem old_unlock_left_earlier_accounts_decrypted : forall pw pre a post pre',
+  unlock_accounts_old pw pre = (UTrue, pre') -> a_encrypted a = true ->
   fst (account_decrypt P pw a) <> DTrue ->
-  fst (unlock_accounts P pw (pre ++ a :: post)) <> UTrue /\
-  snd (unlock_accounts P pw (pre ++ a :: post)) = pre' ++ snd (account_decrypt P pw a) :: post.
+  fst (unlock_accounts_old pw (pre ++ a :: post)) <> UTrue /\
+  snd (unlock_accounts_old pw (pre ++ a :: post)) = pre' ++ snd (account_decrypt P pw a) :: post.
 Proof.
   intros pw pre. induction pre as [|x pre IH]; intros a post pre' Hu Ha Hr.
-  - cbn in Hu. injection Hu as <-. cbn [app unlock_accounts]. rewrite Ha.
+  - cbn in Hu. injection Hu as <-. cbn [app unlock_accounts_old]. rewrite Ha.
     destruct (account_decrypt P pw a) as [o a']. cbn [fst snd] in *.
     destruct o; [congruence| |]; cbn; split; (discriminate || reflexivity).
-  - cbn [app unlock_accounts] in *.
+  - cbn [app unlock_accounts_old] in *.
     destruct (a_encrypted x).
     + destruct (account_decrypt P pw x) as [o x'].
       destruct o; [|discriminate Hu|discriminate Hu].
-      destruct (unlock_accounts P pw pre) as [o1 r1] eqn:Hp.
+      destruct (unlock_accounts_old pw pre) as [o1 r1] eqn:Hp.
       injection Hu as -> <-.
       destruct (IH a post r1 eq_refl Ha Hr) as [H1 H2].
-      destruct (unlock_accounts P pw (pre ++ a :: post)) as [o2 r2]. cbn [fst snd] in *.
+      destruct (unlock_accounts_old pw (pre ++ a :: post)) as [o2 r2]. cbn [fst snd] in *.
       subst r2. split; [exact H1|reflexivity].
-    + destruct (unlock_accounts P pw pre) as [o1 r1] eqn:Hp.
+    + destruct (unlock_accounts_old pw pre) as [o1 r1] eqn:Hp.
       injection Hu as -> <-.
       destruct (IH a post r1 eq_refl Ha Hr) as [H1 H2].
-      destruct (unlock_accounts P pw (pre ++ a :: post)) as [o2 r2]. cbn [fst snd] in *.
+      destruct (unlock_accounts_old pw (pre ++ a :: post)) as [o2 r2]. cbn [fst snd] in *.
       subst r2. split; [exact H1|reflexivity].
+Qed.
+
+(* Account._decrypt_seed / Account.decrypt as they were: the decrypted seed had to pass the English word-list check *)
+Definition decrypt_seed_old (pw : bytes) (a : account) : option bytes * res bytes :=
+  if nonempty (a_seed a) then
+    match aes_decrypt P pw (a_seed a) with
+    | Err e => (a_iv_seed a, Err e)
+    | Ok (sd, iv) =>
+        if nonempty sd then
+          if seed_ok P sd then (Some iv, Ok sd) else (Some iv, Err EValueError)
+        else (Some iv, Ok [])
+    end
+  else (a_iv_seed a, Ok []).
+
+Definition account_decrypt_old (pw : bytes) (a : account) : dout * account :=
+  let (ivs, rs) := decrypt_seed_old pw a in
+  let a1 := set_secrets a (a_seed a) (a_pks a) (a_priv a) (a_encrypted a) ivs (a_iv_priv a) in
+  match rs with
+  | Err _ => (DFalse, a1)
+  | Ok sd =>
+      let (ivp, rp) := decrypt_priv P pw a1 in
+      let a2 := set_secrets a1 (a_seed a1) (a_pks a1) (a_priv a1) (a_encrypted a1) ivs ivp in
+      match rp with
+      | Err EBase58 => (DExc EBase58, a2)
+      | Err _ => (DFalse, a2)
+      | Ok pk => (DTrue, set_secrets a2 sd [] pk false ivs ivp)
+      end
+  end.
+
+Theorem old_seed_check_refused_correct_password : forall a pw rnd,
+  a_encrypted a = false -> nonempty (a_seed a) = true -> utf8_ok P (a_seed a) = true ->
+  seed_ok P (a_seed a) = false -> iv_ok (a_iv_seed a) -> Forall len16 rnd ->
+  fst (account_decrypt_old pw (fst (account_encrypt P pw rnd a))) = DFalse.
+Proof.
+  intros a pw rnd Hpl Hne Hu Hbad Hiv Hr.
+  unfold account_encrypt. rewrite Hne.
+  destruct (get_iv_len (a_iv_seed a) rnd Hiv Hr) as [Hl1 _].
+  destruct (get_iv (a_iv_seed a) rnd) as [iv1 rnd1]; cbn [fst snd] in Hl1.
+  destruct (a_priv a) as [x|].
+  - destruct (get_iv (a_iv_priv a) rnd1) as [iv2 rnd2]. cbn [fst].
+    unfold account_decrypt_old, decrypt_seed_old. cbn [a_seed set_secrets].
+    rewrite (aes_encrypt_nonempty pw (a_seed a) iv1 Hl1).
+    rewrite (aes_roundtrip pw (a_seed a) iv1 Hl1 Hu). rewrite Hne, Hbad. reflexivity.
+  - cbn [fst].
+    unfold account_decrypt_old, decrypt_seed_old. cbn [a_seed set_secrets].
+    rewrite (aes_encrypt_nonempty pw (a_seed a) iv1 Hl1).
+    rewrite (aes_roundtrip pw (a_seed a) iv1 Hl1 Hu). rewrite Hne, Hbad. reflexivity.
 Qed.
 End WithPrims.
 
@@ -749,6 +882,7 @@ Definition toy : prims := mkPrims
   (fun k iv c => match strip_prefix k c with Some p => DOk p | None => DBadPad end)
   (fun x => x) (fun x => Some x)
   (fun _ => true)
+  (fun sd => sd) (fun pub => skipn 4 pub)      (* toy: an extended public key is "xpub" ++ the seed it comes from *)
   (fun sd => negb (bytes_eqb sd toy_bad_seed))
   (fun x => XOk x)
   (fun x => byte_of_N 34 :: x ++ [byte_of_N 34])
@@ -771,14 +905,14 @@ Definition iv_c : bytes := repeat (byte_of_N 3) 16.
 
 (* a seeded account with its private key, a key-only account, a watch-only account *)
 Definition ex_seeded : account :=
-  mkAccount (bN [108]) (bN [65]) (bN [115; 101; 101; 100]) [] (Some (bN [120; 112; 114; 118])) (bN [120; 112; 117; 98])
+  mkAccount (bN [108]) (bN [65]) (bN [115; 101; 101; 100]) [] (Some (bN [120; 112; 114; 118])) (bN [120; 112; 117; 98; 115; 101; 101; 100])
             false None None (JO []) 5 (JO [(bN [99], JS (bN [80; 69; 77]))]).
 Definition ex_keyonly : account :=
   mkAccount (bN [108]) (bN [66]) [] (bN [120; 107]) (Some (bN [120; 107])) (bN [120; 112; 50]) false None None (JO []) 6 (JO []).
 Definition ex_watch : account :=
   mkAccount (bN [108]) (bN [67]) [] [] None (bN [120; 112; 51]) false None None (JO []) 7 (JO []).
 Definition ex_badseed : account :=
-  mkAccount (bN [108]) (bN [68]) toy_bad_seed [] (Some (bN [120; 52])) (bN [120; 112; 52]) false None None (JO []) 8 (JO []).
+  mkAccount (bN [108]) (bN [68]) toy_bad_seed [] (Some (bN [120; 52])) (bN [120; 112; 117; 98; 98; 97; 100]) false None None (JO []) 8 (JO []).
 
 Definition ex_pw : bytes := bN [112; 119].
 Definition ex_pw2 : bytes := bN [113].
@@ -795,3 +929,181 @@ Qed.
 
 Lemma ex_rnd_ok : Forall len16 [iv_a; iv_b; iv_c].
 Proof. repeat constructor. Qed.
+
+(* ------------------------------------------------------------------------------------------ *)
+(* through the disk: encrypted save, restart (from_storage), unlock                            *)
+(* ------------------------------------------------------------------------------------------ *)
+Lemma sortkeys_JA l : sortkeys (JA l) = JA (map sortkeys l).
+Proof.
+  reflexivity.
+Qed.
+
+Section Disk.
+Variable P : prims.
+Hypothesis H_DE : forall k iv p, D P k iv (E P k iv p) = DOk p.
+Hypothesis H_b64 : forall x, b64d P (b64e P x) = Some x.
+Hypothesis H_b64_nil : b64d P [] = Some [].
+
+(* the ciphertext strings [sd], [pk] decrypt, under pw, to the secrets of [a] in whatever account they are stored *)
+Definition decryptable (pw : bytes) (a : account) (sd pk : bytes) : Prop :=
+  forall b, a_seed b = sd -> a_pks b = pk -> a_pub b = a_pub a ->
+  exists ivs ivp, account_decrypt P pw b = (DTrue, set_secrets b (a_seed a) [] (a_priv a) false ivs ivp).
+
+Lemma to_dict_enc_shape pw rnd a : wf_account P a -> nonempty pw = true -> Forall len16 rnd ->
+  exists sd pk,
+    fst (fst (account_to_dict P (Some pw) rnd a)) =
+      JO [(c_ledger, JS (a_ledger a)); (c_name, JS (a_name a)); (c_seed, JS sd); (c_encrypted, JB true);
+          (c_private_key, JS pk); (c_public_key, JS (a_pub a)); (c_address_generator, a_addrgen a);
+          (c_modified_on, JN (a_modified a)); (c_certificates, a_certs a)]
+    /\ decryptable pw a sd pk
+    /\ Forall len16 (snd (account_to_dict P (Some pw) rnd a)).
+Proof.
+  intros [Hpl Hsu Hsw Hpr Hpk Hivs Hivp] Hpw Hr.
+  unfold account_to_dict. rewrite Hpl, Hpw. cbn [negb andb orb].
+  set (ks := match a_priv a with Some x => x | None => a_pks a end).
+  assert (Hks : (nonempty ks = true /\ a_priv a = Some ks /\ xparse P ks = XOk ks /\ utf8_ok P ks = true)
+                \/ (ks = [] /\ a_priv a = None)).
+  { subst ks. destruct (a_priv a) as [x|] eqn:Hx.
+    - left. destruct (Hpr x eq_refl) as (H1 & H2 & H3). auto.
+    - right. split; [apply Hpk; reflexivity|reflexivity]. }
+  destruct Hks as [(Hkn & Hkp & Hkx & Hku)|(Hk0 & Hkp)].
+  - rewrite Hkn.
+    destruct (get_iv_len (a_iv_priv a) rnd Hivp Hr) as [Hl1 Hr1].
+    destruct (get_iv (a_iv_priv a) rnd) as [iv1 rnd1]; cbn [fst snd] in Hl1, Hr1.
+    destruct (nonempty (a_seed a)) eqn:Hne.
+    + destruct (get_iv_len (a_iv_seed a) rnd1 Hivs Hr1) as [Hl2 Hr2].
+      destruct (get_iv (a_iv_seed a) rnd1) as [iv2 rnd2]; cbn [fst snd] in Hl2, Hr2.
+      exists (aes_encrypt P pw (a_seed a) iv2), (aes_encrypt P pw ks iv1). cbn [fst snd].
+      split; [reflexivity|]. split; [|exact Hr2].
+      intros b Hbs Hbp Hbpub. exists (Some iv2), (Some iv1).
+      unfold account_decrypt, decrypt_seed. rewrite Hbs.
+      rewrite (aes_encrypt_nonempty P H_b64 H_b64_nil pw (a_seed a) iv2 Hl2).
+      rewrite (aes_roundtrip P H_DE H_b64 pw (a_seed a) iv2 Hl2 Hsu). rewrite Hne, Hbpub, (Hsw eq_refl).
+      unfold decrypt_priv. cbn [a_pks set_secrets]. rewrite Hbp.
+      rewrite (aes_encrypt_nonempty P H_b64 H_b64_nil pw ks iv1 Hl1).
+      rewrite (aes_roundtrip P H_DE H_b64 pw ks iv1 Hl1 Hku). rewrite Hkn, Hkx, Hkp. reflexivity.
+    + assert (Hs0 : a_seed a = []) by (apply nonempty_false; exact Hne). rewrite Hs0.
+      exists [], (aes_encrypt P pw ks iv1). cbn [fst snd].
+      split; [reflexivity|]. split; [|exact Hr1].
+      intros b Hbs Hbp Hbpub. exists (a_iv_seed b), (Some iv1).
+      unfold account_decrypt, decrypt_seed. rewrite Hbs. cbn [nonempty].
+      unfold decrypt_priv. cbn [a_pks set_secrets]. rewrite Hbp.
+      rewrite (aes_encrypt_nonempty P H_b64 H_b64_nil pw ks iv1 Hl1).
+      rewrite (aes_roundtrip P H_DE H_b64 pw ks iv1 Hl1 Hku). rewrite Hkn, Hkx, Hkp. rewrite ?Hs0. reflexivity.
+  - rewrite Hk0. cbn [nonempty].
+    destruct (nonempty (a_seed a)) eqn:Hne.
+    + destruct (get_iv_len (a_iv_seed a) rnd Hivs Hr) as [Hl2 Hr2].
+      destruct (get_iv (a_iv_seed a) rnd) as [iv2 rnd2]; cbn [fst snd] in Hl2, Hr2.
+      exists (aes_encrypt P pw (a_seed a) iv2), []. cbn [fst snd].
+      split; [reflexivity|]. split; [|exact Hr2].
+      intros b Hbs Hbp Hbpub. exists (Some iv2), (a_iv_priv b).
+      unfold account_decrypt, decrypt_seed. rewrite Hbs.
+      rewrite (aes_encrypt_nonempty P H_b64 H_b64_nil pw (a_seed a) iv2 Hl2).
+      rewrite (aes_roundtrip P H_DE H_b64 pw (a_seed a) iv2 Hl2 Hsu). rewrite Hne, Hbpub, (Hsw eq_refl).
+      unfold decrypt_priv. cbn [a_pks a_iv_priv set_secrets]. rewrite Hbp. cbn [nonempty]. rewrite Hkp. reflexivity.
+    + assert (Hs0 : a_seed a = []) by (apply nonempty_false; exact Hne). rewrite Hs0.
+      exists [], []. cbn [fst snd].
+      split; [reflexivity|]. split; [|exact Hr].
+      intros b Hbs Hbp Hbpub. exists (a_iv_seed b), (a_iv_priv b).
+      unfold account_decrypt, decrypt_seed. rewrite Hbs. cbn [nonempty].
+      unfold decrypt_priv. cbn [a_pks a_iv_priv set_secrets]. rewrite Hbp. cbn [nonempty]. rewrite Hkp. rewrite ?Hs0. reflexivity.
+Qed.
+
+(* from_dict of (the sorted-key reading of) an encrypted account dict *)
+Lemma account_of_dict_enc l n sd pk pb ag mo ce :
+  account_of_dict P (sortkeys (JO [(c_ledger, JS l); (c_name, JS n); (c_seed, JS sd); (c_encrypted, JB true);
+                                   (c_private_key, JS pk); (c_public_key, JS pb); (c_address_generator, ag);
+                                   (c_modified_on, JN mo); (c_certificates, ce)])) =
+  Some (mkAccount l n sd pk None pb true None None (addrgen_norm (sortkeys ag)) mo (sortkeys ce)).
+Proof. vm_compute. reflexivity. Qed.
+
+Lemma reload_unlock_accounts pw : nonempty pw = true -> forall l rnd,
+  Forall (wf_account P) l -> Forall len16 rnd ->
+  exists l1 l2,
+    accounts_of_dicts P (map sortkeys (fst (fst (accounts_to_dict P (Some pw) rnd l)))) = Some l1
+    /\ Forall (fun b => a_encrypted b = true /\ a_priv b = None) l1
+    /\ unlock_accounts P pw l1 = (UTrue, l2)
+    /\ map secrets l2 = map secrets l.
+Proof.
+  intros Hpw. induction l as [|a l IH]; intros rnd Hwf Hr.
+  - exists [], []. cbn. repeat split; constructor.
+  - inversion Hwf as [|? ? Ha Hl]; subst.
+    cbn [accounts_to_dict].
+    destruct (to_dict_enc_shape pw rnd a Ha Hpw Hr) as (sd & pk & Hd & Hdec & Hr1).
+    destruct (account_to_dict P (Some pw) rnd a) as [[d a'] rnd1]. cbn [fst snd] in Hd, Hr1.
+    destruct (IH rnd1 Hl Hr1) as (l1 & l2 & Ho & Hall & Hu & Hs).
+    destruct (accounts_to_dict P (Some pw) rnd1 l) as [[ds r'] rnd2]. cbn [fst] in *.
+    cbn [map accounts_of_dicts]. rewrite Hd, account_of_dict_enc, Ho.
+    set (b := mkAccount (a_ledger a) (a_name a) sd pk None (a_pub a) true None None
+                        (addrgen_norm (sortkeys (a_addrgen a))) (a_modified a) (sortkeys (a_certs a))).
+    destruct (Hdec b eq_refl eq_refl eq_refl) as (ivs & ivp & Hb).
+    eexists. eexists. split; [reflexivity|]. split; [constructor; [split; reflexivity|exact Hall]|].
+    cbn [unlock_accounts]. change (a_encrypted b) with true. cbn iota. rewrite Hb, Hu.
+    split; [reflexivity|]. cbn [map]. rewrite Hs. f_equal.
+    unfold secrets. cbn. rewrite (wf_plain _ _ Ha). reflexivity.
+Qed.
+
+Theorem disk_roundtrip : forall w (pw : bytes) rnd,
+  wf_wallet P w -> pw <> [] -> Forall len16 rnd ->
+  exists w1 w2,
+    wallet_of_dict P (fst (wallet_to_dict P (Some pw) rnd w)) = Some w1
+    /\ Forall (fun b => a_encrypted b = true /\ a_priv b = None) (w_accounts w1)
+    /\ w_pw w1 = None /\ w_name w1 = w_name w
+    /\ unlock P pw w1 = (UTrue, w2)
+    /\ map secrets (w_accounts w2) = map secrets (w_accounts w)
+    /\ w_pw w2 = Some pw.
+Proof.
+  intros w pw rnd Hwf Hne Hr.
+  assert (Hpw : nonempty pw = true) by (destruct pw; [congruence|reflexivity]).
+  destruct (reload_unlock_accounts pw Hpw (w_accounts w) rnd Hwf Hr) as (l1 & l2 & Ho & Hall & Hu & Hs).
+  unfold wallet_to_dict.
+  destruct (accounts_to_dict P (Some pw) rnd (w_accounts w)) as [[ds accs] r] eqn:Hacc. cbn [fst] in Ho |- *.
+  unfold wallet_of_dict.
+  assert (Hsort : sortkeys (JO [(c_version, JN 1); (c_name, JS (w_name w)); (c_preferences, JO (w_prefs w)); (c_accounts, JA ds)])
+                  = JO [(c_accounts, sortkeys (JA ds)); (c_name, JS (w_name w)); (c_preferences, sortkeys (JO (w_prefs w)));
+                        (c_version, JN 1)]).
+  { generalize (JA ds) (JO (w_prefs w)) (w_name w). intros x y z. vm_compute. reflexivity. }
+  rewrite Hsort, sortkeys_JA.
+  assert (Hg1 : forall a b c d, jstr_of (jget c_name [(c_accounts, a); (c_name, JS b); (c_preferences, c); (c_version, d)]) = Some b)
+    by (intros; vm_compute; reflexivity).
+  assert (Hg2 : forall a b c d, jget c_preferences [(c_accounts, a); (c_name, b); (c_preferences, c); (c_version, d)] = Some c)
+    by (intros; vm_compute; reflexivity).
+  assert (Hg3 : forall a b c d, jget c_accounts [(c_accounts, a); (c_name, b); (c_preferences, c); (c_version, d)] = Some a)
+    by (intros; vm_compute; reflexivity).
+  rewrite Hg1, Hg2, Hg3.
+  assert (Hprefs : exists pl, sortkeys (JO (w_prefs w)) = JO pl) by (cbn [sortkeys]; eexists; reflexivity).
+  destruct Hprefs as [pl ->]. rewrite Ho.
+  eexists. exists (mkWallet (w_name w) pl l2 (Some pw)).
+  split; [reflexivity|]. cbn [w_accounts w_pw w_name].
+  split; [exact Hall|]. split; [reflexivity|]. split; [reflexivity|].
+  unfold unlock. cbn [w_accounts w_name w_prefs w_pw]. rewrite Hu.
+  repeat split. exact Hs.
+Qed.
+
+End Disk.
+
+(* Wallet.save as a whole: whatever the wallet state, a kill anywhere inside save leaves the previous file or
+   exactly the rendering of the dict this save computed *)
+Theorem wallet_save_atomic : forall P umask path pid ts rnd w t t',
+  crashes umask (storage_write path pid (render_file P (fst (save_dict P ts rnd w))) t) t t' ->
+  fdata (t' path) = fdata (t path) \/ fdata (t' path) = Some (render_file P (fst (save_dict P ts rnd w))).
+Proof. intros. eapply save_atomic. eassumption. Qed.
+
+(* the premise of the failed-unlock theorem holds for the locked example wallet and another password: the two
+   accounts with secrets refuse it, the watch-only account (nothing to decrypt) opens under any password and is
+   trivially sealed under it *)
+Lemma ex_locked_sealed :
+  match lock toy [iv_a; iv_b; iv_c] ex_wallet with
+  | Ok w1 => Forall (sealed_if_opened toy ex_pw2) (w_accounts w1) /\ fst (unlock toy ex_pw2 w1) = UFalse
+  | Err _ => False
+  end.
+Proof.
+  cbn [lock ex_wallet w_pw w_accounts w_name w_prefs].
+  split; [|vm_compute; reflexivity].
+  pose proof ex_wallet_wf as Hwf. unfold wf_wallet, ex_wallet in Hwf. cbn [w_accounts] in Hwf.
+  inversion Hwf as [|? ? H1 Hwf2]; subst. inversion Hwf2 as [|? ? H2 Hwf3]; subst. inversion Hwf3 as [|? ? H3 _]; subst.
+  repeat constructor.
+  - intros _ H. vm_compute in H. discriminate H.
+  - intros _ H. vm_compute in H. discriminate H.
+  - intros _ _. exists ex_watch, []. split; [exact H3|]. split; [constructor|]. vm_compute. reflexivity.
+Qed.
